@@ -261,6 +261,9 @@ def check(P, R, tier):
     todo = [("ymd", "b", "__ymd_add_b"), ("yd", "b", "__yd_add_b"), ("ywd", "b", "__ywd_add_b"), ("ymcw", "b", "__ymcw_add_b")]
     nad = adddecode.run_parallel(R, tu, "RF2-add", todo, every=(tier == "thorough"), jobs=14)
     R.floor("RF2-add", "decoded (start, count) points of the business-day adders", nad, 150000)
+    import bizdecode
+    nbz = bizdecode.run_parallel(R, tu, "RF2-biz", jobs=14)
+    R.floor("RF2-biz", "decoded getters / conversions / additions of business-day dates", nbz, 30000)
     import fresh
     nfr = fresh.check_unit(R, tu, "RF-fresh", only_file="bizda.c")
     R.floor("RF-fresh", "uses of looked-up period lengths in the business-day code", nfr, 10)
